@@ -352,8 +352,15 @@ class MultiPaxosNode(Entity):
             self._apply_committed(newly_committed)
         return []
 
-    def _handle_heartbeat(self, event: Event) -> None:
+    def _handle_heartbeat(self, event: Event) -> list[Event] | None:
         metadata = event.context.get("metadata", {})
+
+        # Self-heartbeat tick: send heartbeats to peers (it is not a peer's heartbeat)
+        if metadata.get("self_heartbeat"):
+            if not self._is_leader:
+                return None
+            return self._send_heartbeat()
+
         ballot = Ballot(metadata.get("ballot_number", 0), metadata.get("ballot_node", ""))
         leader_commit = metadata.get("commit_index", 0)
 
